@@ -128,7 +128,7 @@ int vh_cal(void)
 	return 0;
     }
     /* operations on a vnacal_new_t */
-    if (strncmp(op, "new_", 4) == 0 || strcmp(op, "add") == 0 || strcmp(op, "solve") == 0) {
+    if (strncmp(op, "new_", 4) == 0 || strcmp(op, "add") == 0 || strcmp(op, "solve") == 0 || strcmp(op, "hash_dump") == 0) {
 	int n;
 	vnacal_new_t *vnp;
 	if (strcmp(op, "new_alloc") == 0) {
@@ -194,6 +194,17 @@ int vh_cal(void)
 	    int rc;
 	    LIB(rc = vnacal_new_solve(vnp));
 	    res(rc == 0, rc);
+	    return 0;
+	}
+	if (strcmp(op, "hash_dump") == 0) {	/* hash_dump n: the chains of the per-calibration parameter table (hook, -DLIBVNA_VERIF) */
+	    extern int _vnacal_new_verif_hash_dump(const vnacal_new_t *vnp, int *allocation, int *buffer, int size);
+	    int alloc_ = 0, need, *buf;
+	    LIB(need = _vnacal_new_verif_hash_dump(vnp, &alloc_, NULL, 0));
+	    buf = malloc(sizeof(int) * (need + 1));
+	    LIB(need = _vnacal_new_verif_hash_dump(vnp, &alloc_, buf, need));
+	    vh_out("ok %d", alloc_);
+	    for (int i = 0; i < need; ++i) { if (buf[i] < 0) vh_out(" ;"); else vh_out(" %d", buf[i]); }
+	    free(buf);
 	    return 0;
 	}
 	if (strcmp(op, "add") == 0) {	/* add n <kind> <m|ab> nf <matrices> <kind args> */
